@@ -220,4 +220,7 @@ def run(prog, rep):
     rep.attempt(M.offset_provenance, ct, rep)
     rep.attempt(M.repoint_later, ct, rep)
     rep.attempt(M.shift_loop, ct, rep)
+    # comments / labels reach the file unaltered only if the string writer refuses what does not fit instead of cutting it
+    from .c13 import string_write_rules
+    rep.attempt(string_write_rules, prog, rep)
     rep.not_decided += ["byte equality of moved payloads under concrete histories", "datetime <-> 32-bit timestamp corner cases (DST folds, 2038)"]
